@@ -199,4 +199,18 @@ def run(case):
                 F.append(Finding("oracle", "transform_subset_of_training", cc, f"field {i}: transform(training subset) != scores subset: rel {e:.2e}"))
     except Exception as e:  # noqa: BLE001
         F.append(Finding("oracle", "transform_subset_of_training", cc + "|raises", f"{type(e).__name__}: {str(e)[:140]}"))
+    # after transforming OTHER data, the full training data is still labelled with its own coordinates and reproduces the scores
+    try:
+        tt = zoo.transform(cls, m, data, **kw)
+        sc = zoo.scores(cls, m, **kw)
+        for i in range(len(tt)):
+            v, tl = as_time_mode(tt[i], mi)
+            s, sl = as_time_mode(sc[i], mi)
+            checks += 1
+            if len(tl) != len(sl) or not np.array_equal(tl, sl):
+                F.append(Finding("oracle", "transform_labels", cc + "|after-other-data", f"field {i}: transform(training data) after transform(new data) is labelled {tl[:4]}..., training samples are {sl[:4]}..."))
+            elif relerr(v, s) > (1e-7 if zoo.base_of(cls) != "SparsePCA" else 1e-6):
+                F.append(Finding("oracle", "transform_subset_of_training", cc + "|after-other-data", f"field {i}: rel {relerr(v, s):.2e}"))
+    except Exception as e:  # noqa: BLE001
+        F.append(Finding("oracle", "transform_labels", cc + "|after-other-data|raises", f"{type(e).__name__}: {str(e)[:140]}"))
     return {"findings": F, "info": {"oracle_checks": {"n": checks}, "dist": {"cls": cls, "struct": case["struct"], "coords": case["coords"], "n_new": n_new}}}
